@@ -51,6 +51,16 @@ var c20Fixed = []string{
 	`(def a [3 1 2]) (map (fn [x] (* x x)) a)`,
 	`(sort [3 1 2])`,
 	`(symnum (quote brandNewSymbolNeverSeen))`,
+	// listings of Go-backed records, and the error text that enumerates them
+	`(methodls (c10outer))`,
+	`(fieldls (c10outer))`,
+	`(list (methodls (c10inner)) (fieldls (c10inner n: 1)))`,
+	`(_method (c10outer) NoSuchMethod:)`,
+	// macros after whatever other interpreters did with macros
+	`(def ct 0) (range k v [1 2 3] (set ct (+ ct v))) (++ ct) (+= ct 4) ct`,
+	`(defmac w1 [x] ^(+ 1 ~x)) (defmac w2 [x] ^(w1 (w1 (w1 ~x)))) (defmac w3 [x] ^(w2 (w2 (w2 ~x)))) (w3 (w3 (w3 0)))`,
+	`(defmac selfm [x] ^(selfm ~x)) (selfm 1)`,
+	`(defmac badm [x] ^(let [q] ~x)) (badm 1)`,
 }
 
 // noise: what other interpreters of the same process did before
@@ -65,6 +75,16 @@ var c20Noise = []string{
 	`(c10outer i: 1 p: (c10inner n: 1)) (_method (c10outer) Echo: (c10outer sh: (c10inner n: 2)))`,
 	`(undefinedThing) `,
 	`(str2sym "__gensym300") (str2sym "brandNewSymbolNeverSeen")`,
+	// failures inside macro expansion, in the compiler, in builtins and deep in the VM
+	`(defmac selfn [x] ^(selfn ~x)) (selfn 1)`,
+	`(defmac badn [x] ^(let [q] ~x)) (badn 1) (badn 2) (badn 3)`,
+	`(defmac deepn [x] ^(begin (let) ~x)) (deepn (deepn (deepn 1)))`,
+	`(defn rec [n] (cond (> n 200) (aget [1] 5) (+ 1 (rec (+ n 1))))) (rec 0)`,
+	`(aget [1] 5) `,
+	`(first 3)`,
+	// in-place edits of lists a builtin handed out
+	`(def ml (methodls (c10outer))) (aset ml 0 "edited") (def fl (fieldls (c10outer))) (aset fl 0 "edited") (def kl (keys (hash a: 1))) (aset kl 0 (quote edited))`,
+	`(def ml (methodls (c10inner))) (aset ml 0 "edited") (def so [3 1 2]) (sort so) (aset so 0 99)`,
 }
 
 var (
@@ -170,7 +190,7 @@ func init() {
 		ID:    "C20",
 		Level: "exploration",
 		Rule: "programs: 31 hand-written programs around the map-walking conversions named by the anchors (hash / record / package / function printing, json and msgpack bytes, unjson of plain JSON objects without key-order entry, records with nested registered Go structs through togo and Go method returns, error texts that list names, generated symbol names, struct declarations, type listing), every tests/*.zy script that uses no file, time, random, channel or demo-struct feature, and generated programs whose effects print to stdout. " +
-			"Each program is run N times (quick 8, thorough 20) in this process, as the 1st, 2nd, 3rd, ... interpreter after other interpreters ran unrelated programs (declaring structs, defmaps, macros, interning symbols), and in M fresh processes (quick 2, thorough 5; each Go map gets a new iteration seed). Events: printed value, captured stdout, full error text. Oracle: all N+M observations identical after normalising pointer renderings and recovered Go stack traces. non-trivial = every distinct program",
+			"Each program is run N times (quick 8, thorough 20) in this process, as the 1st, 2nd, 3rd, ... interpreter after other interpreters ran unrelated programs (defining values, macros, interning symbols, failing inside macro expansions, the compiler, builtins and deep recursion, editing in place the lists that listing builtins handed out), and in M fresh processes (quick 2, thorough 5; each Go map gets a new iteration seed). Events: printed value, captured stdout, full error text. Oracle: all N+M observations identical after normalising pointer renderings and recovered Go stack traces. non-trivial = every distinct program",
 		Assumptions: []string{
 			"explicit random/time functions are not used by any program; pointer renderings 0x… and recovered Go stack traces are normalised away",
 		},
@@ -234,8 +254,15 @@ func c20Run(c *core.Ctx, i int) *core.Result {
 	var where []string
 	for k := 0; k < n; k++ {
 		nth := k % 4
-		obs = append(obs, c20RunOnce(c, prog, nth, c.Seed+uint64(k)))
+		obs = append(obs, c20RunOnce(c, prog, nth, c.Seed*31+uint64(i)*7+uint64(k)*5))
 		where = append(where, fmt.Sprintf("in-process run %d (as interpreter #%d of the process)", k, nth+1))
+		res.Evals++
+		res.Ev("in_process_runs", 1)
+	}
+	if i < len(c20Fixed) || i%10 == 0 {
+		// once more after EVERY noise program has run in an earlier interpreter of this process
+		obs = append(obs, c20RunOnce(c, prog, len(c20Noise), 0))
+		where = append(where, fmt.Sprintf("in-process run after all %d noise programs", len(c20Noise)))
 		res.Evals++
 		res.Ev("in_process_runs", 1)
 	}
